@@ -126,5 +126,28 @@ bandwidth `2·bandwidth`; the property asks of it stability and unit gain only.)
 def gammatoneSectionContract (freq bandwidth : α) (radius : Bool) : Contract α :=
   { points := [(freq, c1)], poleRadius := if radius then some (exp (-bandwidth)) else none }
 
+/-! ### the contract of each strategy (what the driver returns as `spec`) -/
+
+def lowpassSpec (st : Strategy) (cutoff : α) : Contract α :=
+  match st with
+  | .pole => lowpassContract cutoff
+  | .z => lowpassContract cutoff
+  | .poleExp => lowpassExpContract (exp (-cutoff))
+  | .zExp => lowpassExpContract (exp (cutoff - pi))
+
+def highpassSpec (st : Strategy) (cutoff : α) : Contract α :=
+  match st with
+  | .pole => highpassContract cutoff
+  | .z => highpassContract cutoff
+  | .poleExp => highpassExpContract (exp (cutoff - pi))
+  | .zExp => highpassExpContract (exp (-cutoff))
+
+def resonatorSpec (st : ResStrategy) (freq bandwidth : α) : Contract α :=
+  match st with
+  | .polesExp => resonatorContract freq bandwidth
+  | .zExp => resonatorContract freq bandwidth
+  | .freqPolesExp => resonatorFreqContract freq bandwidth false
+  | .freqZExp => resonatorFreqContract freq bandwidth true
+
 end generic
 end ALV.C13
